@@ -93,7 +93,7 @@ DEPENDS = {
     'C04': ('restore', 'load', 'adapters', 'process'),
     'C05': ('snapshot', 'keys', 'adapters', 'loc', 'load'),
     'C06': ('keys', 'load', 'gc', 'adapters'),
-    'C07': ('snapshot', 'loc', 'adapters', 'retry'),
+    'C07': ('snapshot', 'loc', 'adapters', 'retry', 'gc', 'load', 'listing'),
     'C08': ('gc', 'load', 'loc', 'listing'),
     'C09': ('snapshot', 'restore'),
     'C10': (),          # the chunker units are listed by the property modules themselves (C10 carries the known finding D4)
